@@ -53,11 +53,23 @@ theorem xval_zero_iff (hP : IsLvl P) {a : Nat} : xval P a = 0 ↔ a % P.q = 0 :=
   have := xval_eq_iff hP (a := a) (b := 0)
   simpa [xval] using this
 
-/-- the hypotheses that are cited / not proved for the x86 model (see the file header) -/
-structure X86Cited (P : X86Params) [Fact P.q.Prime] : Prop where
+/-- CITED (Pornin, "Optimized Binary GCD for Modular Inversion", eprint 2020/972): run on a modulus `q < 2^B` the
+    optimised binary GCD reaches `gcd` within `2·B − 2` steps. The hypothesis is indexed by the number of steps
+    the routine actually performs: `enough` (checked against the loop counts re-extracted from the C text,
+    `SqiProps.C07.gcd_budget`) says the routine runs at least that many; `inv` / `isSquare` are the resulting
+    end-to-end statements about the model's `invert` and `fp_is_square` (Legendre). What IS proved: `lin`,
+    `lindiv31abs`, one outer iteration preserves the GCD invariant (SqiProofs.GfX86Inv). -/
+structure PorninConvergence (P : X86Params) [Fact P.q.Prime] (steps : Nat) : Prop where
+  enough : 2 * P.B - 2 ≤ steps
   inv : ∀ a, a < 2 ^ P.B → (invert P a).1 < 2 ^ P.B ∧ xval P (invert P a).1 = (xval P a)⁻¹
   isSquare : ∀ a, a < 2 ^ P.B → (fp_is_square P a = 0 ∨ fp_is_square P a = T32) ∧
     (fp_is_square P a = T32 ↔ IsSquare (xval P a))
+
+/-- number of binary-GCD steps performed by the model's `div` / `legendre`: `outer` rounds of 31 + the final round -/
+def gcdSteps (P : X86Params) : Nat := P.outer * 31 + P.final
+
+/-- the cited hypothesis at the step count of the modelled routines -/
+abbrev X86Cited (P : X86Params) [Fact P.q.Prime] : Prop := PorninConvergence P (gcdSteps P)
 
 theorem x86_refines (hP : IsLvl P) (hc : X86Cited P) :
     FpRefines (X86.ops P) P.q (fun a => a < 2 ^ P.B) (xval P) where
